@@ -1,4 +1,4 @@
-\* quick: tenant as actions (states are pairs), 2 classes, <=2 records, counts 1..2, endpoints {00,10,01}
+\* thorough: tenant as actions (states are pairs), 2 classes, <=2 records, counts 1..2, endpoints {0,1}^2
 SPECIFICATION Spec
 CONSTANTS
   UnitSeq <- U2
@@ -7,7 +7,7 @@ CONSTANTS
   MaxRecs = 2
   MaxCount = 2
   MCountMin = 1
-  EpVals <- EpGrp
+  EpVals <- EpBin
   ChainCanonical = FALSE
   TenantMode = "actions"
   ExportMode = "none"
